@@ -154,7 +154,11 @@ func (schema *Schema) Merge(other *Schema) error {
 		return fmt.Errorf("conflicting metadata: %w", ErrCannotMergeSchemas)
 	}
 
-	if schema.EntryPoint != other.EntryPoint && (schema.EntryPoint == "" || other.EntryPoint == "") {
+	if schema.EntryPoint != other.EntryPoint {
+		if schema.EntryPoint != "" && other.EntryPoint != "" {
+			return fmt.Errorf("conflicting entry points ('%s', '%s'): %w", schema.EntryPoint, other.EntryPoint, ErrCannotMergeSchemas)
+		}
+
 		if schema.EntryPoint == "" {
 			schema.EntryPoint = other.EntryPoint
 			schema.EntryPointType = other.EntryPointType
